@@ -2009,10 +2009,13 @@ def make_strategy(cname, letters):
 
         ex, _ = chunk_names(cname, letters)
         lo, hi = (1, 4) if cname == "Tensor" else (3, 5)
+        # the pair is drawn LAST: Hypothesis' generator likes to keep a prefix of an earlier example and redraw the rest,
+        # which (with the pair first) concentrated the budget on a few pairs and left others unvisited
         return st.fixed_dictionaries({
-            "pair": st.sampled_from(ex).map(lambda n: [cname, n]), "seed": AR.seeds, "pseed": st.integers(0, 10 ** 6),
+            "seed": AR.seeds, "pseed": st.integers(0, 10 ** 6),
             "n": st.integers(lo, hi), "geom": st.sampled_from(GEOMS), "dtype": st.sampled_from(["float64", "complex128"]),
-            "exp": st.sampled_from([0.0, 0.0, 1.0, -2.0]), "view": st.booleans()})
+            "exp": st.sampled_from([0.0, 0.0, 1.0, -2.0]), "view": st.booleans(),
+            "pair": st.sampled_from(ex).map(lambda n: [cname, n])})
     return strat
 
 
